@@ -193,7 +193,7 @@ type termRun struct {
 	hangSig   string // quiescent deadlock witness
 	leak      []string
 	inconcl   string
-	runaway   bool // an engine goroutine computes without bound: the process is compromised
+	runaway   bool          // an engine goroutine computes without bound: the process is compromised
 	wallAfter time.Duration // time between cancellation and return (evidence only)
 }
 
